@@ -497,6 +497,45 @@ func DefinesPath(fn *ssa.Function, ap string) PathKeep {
 // "if p != nil {…}; if p != nil && q != nil {…}" yields two tests of one fact.
 func Feasible(p Path) bool {
 	seen := map[string]bool{}
+	// one SSA value tested twice (`over := n > max; if over {…}; …; if over {…}`) is one fact, whatever
+	// it was computed from — unless it is defined inside a loop the path goes around
+	same := map[ssa.Value]bool{}
+	type eqKey struct {
+		x ssa.Value
+		y ssa.Value
+		k string // the constant operand (every occurrence of a constant is its own ssa.Const)
+	}
+	eqFact := map[eqKey]bool{} // x == y (same SSA operands), whichever of == / != spelled the test
+	for _, c := range p.Conds() {
+		nc := NormCond(c)
+		if in, isIn := nc.V.(ssa.Instruction); isIn && in.Block() != nil && !InLoop(in.Block()) {
+			if v, ok := same[nc.V]; ok && v != nc.True {
+				return false
+			}
+			same[nc.V] = nc.True
+		}
+		if b, isB := nc.V.(*ssa.BinOp); isB && (b.Op == token.EQL || b.Op == token.NEQ) {
+			// both tests sit in one iteration (or outside loops): the operands are the same values
+			if _, xk := b.X.(*ssa.Const); !xk {
+				if xi, isI := b.X.(ssa.Instruction); !isI || xi.Block() == nil || !loopVariantBetween(p, c) {
+					eq := (b.Op == token.EQL) == nc.True
+					k := eqKey{x: b.X, y: b.Y}
+					if kc, isK := b.Y.(*ssa.Const); isK {
+						k.y = nil
+						if kc.Value == nil {
+							k.k = "nil"
+						} else {
+							k.k = kc.Value.ExactString()
+						}
+					}
+					if v, ok := eqFact[k]; ok && v != eq {
+						return false
+					}
+					eqFact[k] = eq
+				}
+			}
+		}
+	}
 	for _, c := range p.Conds() {
 		// a decision carried in a local variable (`reason := ""; switch {case a: reason = "x"}; if reason != "" {…}`):
 		// the phi's edge on this path is a constant, so the test is decided
@@ -520,6 +559,24 @@ func Feasible(p Path) bool {
 		seen[k] = c.True
 	}
 	return true
+}
+
+// loopVariantBetween: the path passes a loop header more than once up to the condition's block —
+// values defined in the loop may then belong to different iterations.
+func loopVariantBetween(p Path, c Cond) bool {
+	seen := map[*ssa.BasicBlock]int{}
+	for i, b := range p {
+		if c.Idx > 0 && i > c.Idx {
+			break
+		}
+		if len(Latches(b)) > 0 {
+			seen[b]++
+			if seen[b] > 1 {
+				return true
+			}
+		}
+	}
+	return false
 }
 
 // constPhiTest: c compares a phi with a constant and, on path p, the phi took a
